@@ -55,6 +55,14 @@ def interval(ctx, name, kind):
         b = ctx.real(name + "b")
         ctx.assume(AND(a < 0, 0 < b))
         return a, b
+    if kind == "neg0":  # negative side, upper end exactly 0
+        a = ctx.real(name + "a")
+        ctx.assume(a < 0)
+        return a, 0.0
+    if kind == "pos0":  # positive side, lower end exactly 0
+        b = ctx.real(name + "b")
+        ctx.assume(b > 0)
+        return 0.0, b
     if kind == "neginf":
         b = ctx.real(name + "b")
         ctx.assume(b < 0)
@@ -76,8 +84,8 @@ def interval(ctx, name, kind):
     raise ValueError(kind)
 
 
-def make_model(ctx, d):
-    models = [A.abs_levy_model(ctx, f"nu{i}") for i in range(d)]
+def make_model(ctx, d, finite_activity=False):
+    models = [A.abs_levy_model(ctx, f"nu{i}", finite_activity=finite_activity) for i in range(d)]
     cop = A.AbsCopula(ctx, "F", d)
     return LCM.LevyCopulaModel(models=models, copula=cop), models, cop
 
@@ -120,6 +128,38 @@ def replay_fast_vs_general(sc):
     return ok, f"HEM/CGMY margins + Clayton: _mass_{d}d({a},{b}) = {fast!r} but _mass_nd = {gen!r}"
 
 
+def _finite_levycopula(d):
+    import rpylib.model.levymodel.mixed.hem as HEM
+    from rpylib.distribution.levycopula import ClaytonCopula
+
+    ms = [HEM.HEMModel(HEM.HEMParameters(sigma=0.1, p=0.4 + 0.1 * i, eta1=20.0 + i, eta2=25.0 - i, intensity=3.0 - 0.4 * i)) for i in range(d)]
+    return LCM.LevyCopulaModel(models=ms, copula=ClaytonCopula(theta=0.7 + 0.1 * d, eta=0.3))
+
+
+def replay_split(sc):
+    """HEM margins (finite activity) + Clayton: mass(a,b) against mass(a, b with b_k = c) + mass(a with a_k = c, b)"""
+    d, k = sc["d"], sc["axis"]
+    mdl = _finite_levycopula(d)
+    a, b = [float(x) for x in sc["a"]], [float(x) for x in sc["b"]]
+    c = sc["c"]
+    if c is None:
+        lo, hi = a[k], b[k]
+        if sc["side"] == "neg":
+            hi = min(hi, 0.0)
+            lo = lo if not math.isinf(lo) else hi - 1.0
+        else:
+            lo = max(lo, 0.0)
+            hi = hi if not math.isinf(hi) else lo + 1.0
+        c = 0.5 * (lo + hi)
+    b1, a2 = list(b), list(a)
+    b1[k] = c
+    a2[k] = c
+    whole = float(mdl.mass(tuple(a), tuple(b)))
+    left, right = float(mdl.mass(tuple(a), tuple(b1))), float(mdl.mass(tuple(a2), tuple(b)))
+    bad = abs(left + right - whole) > 1e-9 * max(1.0, abs(whole))
+    return bad, f"HEM margins + Clayton, d={d}: mass({a},{b}) = {whole!r} but split along axis {k} at {c}: {left!r} + {right!r} = {left + right!r}"
+
+
 def _vals(m, xs):
     out = []
     for x in xs:
@@ -138,7 +178,8 @@ def _rescale(a, b):
 
 
 def h_fast_vs_general(ctx, d, kinds):
-    mdl, models, cop = make_model(ctx, d)
+    # an end point exactly at 0 needs the total mass of a half-line: finite-activity margins there
+    mdl, models, cop = make_model(ctx, d, finite_activity=any(k in ("neg0", "pos0") for k in kinds))
     ivs = [interval(ctx, f"x{i}", k) for i, k in enumerate(kinds)]
     a = tuple(iv[0] for iv in ivs)
     b = tuple(iv[1] for iv in ivs)
@@ -250,17 +291,20 @@ def h_submargin(ctx, d, idx, kinds):
 
 def h_split(ctx, d, kinds, axis, side):
     """additivity: split [a,b] along `axis` at a symbolic point c strictly inside (on side 'neg'/'pos' of zero)"""
-    mdl, models, cop = make_model(ctx, d)
+    mdl, models, cop = make_model(ctx, d, finite_activity=(side == "zero"))
     ivs = [interval(ctx, f"x{i}", k) for i, k in enumerate(kinds)]
     a = [iv[0] for iv in ivs]
     b = [iv[1] for iv in ivs]
-    c = ctx.real("c")
     lo, hi = a[axis], b[axis]
-    if not isinstance(lo, float):
-        ctx.assume(c > lo)
-    if not isinstance(hi, float):
-        ctx.assume(c < hi)
-    ctx.assume(c < 0 if side == "neg" else c > 0)
+    if side == "zero":
+        c = 0.0  # [a, b] = [a, 0] + (0, b] on a straddling coordinate (finite-activity margins: the half-line masses are finite)
+    else:
+        c = ctx.real("c")
+        if not isinstance(lo, float):
+            ctx.assume(c > lo)
+        if not isinstance(hi, float):
+            ctx.assume(c < hi)
+        ctx.assume(c < 0 if side == "neg" else c > 0)
     whole = mdl.mass(tuple(a), tuple(b))
     b1 = list(b)
     b1[axis] = c
@@ -268,7 +312,11 @@ def h_split(ctx, d, kinds, axis, side):
     a2[axis] = c
     left = mdl.mass(tuple(a), tuple(b1))
     right = mdl.mass(tuple(a2), tuple(b))
-    ctx.prove(f"C12.additive_split.{d}d", EQ(left + right, whole), info={"kinds": kinds, "axis": axis, "side": side})
+    def scen(m):
+        aa, bb = _rescale(_vals(m, a), _vals(m, b))
+        return {"d": d, "a": aa, "b": bb, "axis": axis, "c": 0.0 if side == "zero" else None, "side": side}
+
+    ctx.prove(f"C12.additive_split.{d}d", EQ(left + right, whole), info={"kinds": kinds, "axis": axis, "side": side}, replay=(replay_split, scen))
 
 
 def h_nonneg(ctx, d, kinds):
@@ -324,6 +372,12 @@ def harnesses(tier):
         if has_origin(kinds):
             continue  # the property is about rectangles that do not contain the origin
         hs.append(Harness(f"fast2d.{'.'.join(kinds)}", h_fast_vs_general, {"d": 2, "kinds": kinds}, max_paths=500))
+    for kinds in [k for k in itertools.product(("neg", "pos", "str", "neg0", "pos0"), repeat=2) if any(x in ("neg0", "pos0") for x in k)]:
+        if kinds in (("neg0", "pos0"), ("pos0", "neg0"), ("neg0", "neg0"), ("pos0", "pos0"), ("str", "neg0"), ("str", "pos0"), ("neg0", "str"), ("pos0", "str")):
+            continue  # the closed rectangle touches or contains the origin
+        hs.append(Harness(f"fast2d.{'.'.join(kinds)}", h_fast_vs_general, {"d": 2, "kinds": kinds}, max_paths=500))
+    for kinds in [("pos", "pos0", "neg"), ("neg0", "pos", "str"), ("str", "neg", "pos0"), ("pos", "neg", "neg0")]:
+        hs.append(Harness(f"fast3d.{'.'.join(kinds)}", h_fast_vs_general, {"d": 3, "kinds": kinds}, max_paths=2000))
     k3 = fin if q else ("neg", "pos", "str", "neginf", "posinf")
     for kinds in itertools.product(k3, repeat=3):
         if has_origin(kinds):
@@ -348,6 +402,10 @@ def harnesses(tier):
             for side in ("neg", "pos"):
                 if kinds[axis] == "str" or kinds[axis] == side:
                     hs.append(Harness(f"split2d.{'.'.join(kinds)}.{axis}.{side}", h_split, {"d": 2, "kinds": kinds, "axis": axis, "side": side}, max_paths=500))
+    for kinds, axis in [(("str", "pos"), 0), (("neg", "str"), 1), (("str", "neg"), 0)]:
+        hs.append(Harness(f"split2d.{'.'.join(kinds)}.{axis}.zero", h_split, {"d": 2, "kinds": kinds, "axis": axis, "side": "zero"}, max_paths=500))
+    for kinds, axis in [(("str", "pos", "neg"), 0), (("pos", "neg", "str"), 2), (("str", "str", "pos"), 1)]:
+        hs.append(Harness(f"split3d.{'.'.join(kinds)}.{axis}.zero", h_split, {"d": 3, "kinds": kinds, "axis": axis, "side": "zero"}, max_paths=2000))
     k3s = [("neg", "pos", "str"), ("str", "str", "pos"), ("pos", "pos", "pos"), ("str", "str", "str")] if q else list(itertools.product(fin, repeat=3))
     for kinds in k3s:
         if has_origin(kinds):
